@@ -563,21 +563,11 @@ def gen_argv(rng, items, decl, valid, nuse=None):
     return [w for w in words if b"\0" not in w]
 
 
-def key_section_collisions(entries):
-    """F-C17k: entries (sec, key, .., item, value) whose lower-case "section:key" is also the lower-case name of a
-    section of the same file.  iniparser keeps headings and entries in ONE dictionary ("pre:b" is the entry b of
-    [pre] and the heading [pre:B]); a heading that follows the entry replaces its value by NULL.
-    Returns {"vars": variables of such entries, "invalid_all_collide": every entry with an invalid value is one}"""
-    secs = set(e[0].lower() for e in entries)
-    hit = [e for e in entries if (e[0] + b":" + e[1]).lower() in secs]
-    bad = [e for e in entries if e[4] is None]
-    return {"vars": sorted(set(e[3].var for e in hit)), "invalid_all_collide": bool(bad) and all(e in hit for e in bad)}
-
-
 def gen_ini(rng, items, decl, valid):
-    """a configuration file for an object in ordinary ini syntax; returns (bytes, expect, collisions) where
-    expect = dict var -> value in item order semantics, or 'error' (the reference demands -1), or None (not judged)
-    and collisions = key_section_collisions of the entries"""
+    """a configuration file for an object in ordinary ini syntax; returns (bytes, expect) where
+    expect = dict var -> value in item order semantics, or 'error' (the reference demands -1), or None (not judged).
+    An entry may be named like a section of the file ("[a]\\nb = 1\\n[a:B]", option b + nested prefix B): since cfc9e38 the
+    heading leaves the entry alone, so nothing special is expected of such files."""
     entries = []
     expect = {}
     err = False
@@ -662,7 +652,7 @@ def gen_ini(rng, items, decl, valid):
     if rng.random() < 0.3:
         out += [b"[Other]", b"unrelated = 1"]
     text = b"\n".join(out) + b"\n"
-    return text, ("error" if err else expect), key_section_collisions(entries)
+    return text, ("error" if err else expect)
 
 
 def mutate(rng, data):
@@ -785,14 +775,14 @@ def gen_history(rng, hid, quick):
             h.tags.add("parse-valid" if valid else "parse-invalid")
         elif k < 0.5:
             valid = rng.random() < 0.7
-            text, exp, coll = gen_ini(rng, items0, decl, valid)
+            text, exp = gen_ini(rng, items0, decl, valid)
             f = b"gen%d.ini" % len(files)
             files.append(f)
             h.op("file %s %s" % (hx(f), hx(text)))
-            h.op("load 0 %s" % hx(f), ("load", 0, exp, coll))
+            h.op("load 0 %s" % hx(f), ("load", 0, exp))
             h.tags.add("load-generated")
         elif k < 0.62:
-            text, _, _ = gen_ini(rng, items0, decl, rng.random() < 0.5)
+            text, _ = gen_ini(rng, items0, decl, rng.random() < 0.5)
             if rng.random() < 0.4:
                 text = bytes(rng.randrange(256) for _ in range(rng.randrange(0, 300)))
                 h.tags.add("load-random-bytes")
@@ -809,8 +799,10 @@ def gen_history(rng, hid, quick):
             h.op("errno %d" % rng.choice([34, 34, 2, 22, 0]))
         elif k < 0.72:
             h.op("load 0 %s" % hx(rng.choice([b"missing.ini", b"/nonexistent-dir/x.ini"])))
-        elif k < 0.76:
+        elif k < 0.74:
             h.op("summary 0")
+        elif k < 0.76:
+            h.op("dirty %d" % rng.choice([43, 45, 58, 63, 97, 255, 0]))          # the next parse starts from a stack full of this byte
         elif k < 0.80:
             vs = [it for it in items0 if it.ty in ("int", "size")]
             if vs:
@@ -914,7 +906,8 @@ def aimed_histories(rng, hid0):
     # stale key-value text of a sub-options copy: parse through the sub-options object, save the parent
     h = History(hid, d); hid += 1; out.append(h); h.tags.add("aimed-keyvalue-copy")
     h.parse(1, [b"prog", b"-c", b"cd"]); h.parse(0, [b"prog"]); roundtrip(h, rng, b"kvc.ini"); h.end()
-    # F-C17k: an option "pre:b" and the heading of the nested sub-options "pre:B" share one dictionary slot of iniparser
+    # F-C17k (repaired cfc9e38): an option "pre:b" and the heading of the nested sub-options "pre:B" share one dictionary slot
+    # of iniparser; the heading must leave the value of the entry alone, wherever it stands
     d = Decl.__new__(Decl)
     d.ops, d.objs, d.nvar, d.rng = [("kv", 0), ("kv", 1), ("new", 2)], {0: [], 1: [], 2: []}, 0, rng
     d.used_ch, d.used_nm, d.kvs, d.inits, d.kinds, d.shape = {0: set(), 1: set(), 2: set()}, {0: set(), 1: set(), 2: set()}, KV_TABLES, {}, {}, "nested"
@@ -928,27 +921,32 @@ def aimed_histories(rng, hid0):
     h = History(hid, d); hid += 1; out.append(h); h.tags.add("aimed-key-section")
     h.parse(0, [b"prog", b"--pre:b", b"--pre:B:kk", b"7", b"-i", b"3"]); roundtrip(h, rng, b"ks.ini"); h.end()
     h = History(hid, d); hid += 1; out.append(h); h.tags.add("aimed-key-section")
-    h.parse(0, [b"prog", b"--pre:B:kk", b"8"]); roundtrip(h, rng, b"ks2.ini"); h.end()          # switch 0: nothing to lose
+    h.parse(0, [b"prog", b"--pre:B:kk", b"8"]); roundtrip(h, rng, b"ks2.ini"); h.end()
     h = History(hid, d); hid += 1; out.append(h); h.tags.add("aimed-key-section")
-    coll = {"vars": [1], "invalid_all_collide": False}
     h.op("file %s %s" % (hx(b"ks3.ini"), hx(b"[pre]\nb = 4\n[pre:B]\nkk = 7\n[Options]\npre = 5\n")))
-    h.op("load 0 %s" % hx(b"ks3.ini"), ("load", 0, {1: 4, 0: 7, 2: 5}, coll))        # heading behind the entry: its value is lost
+    h.op("load 0 %s" % hx(b"ks3.ini"), ("load", 0, {1: 4, 0: 7, 2: 5}))        # heading behind the entry
     h.op("file %s %s" % (hx(b"ks4.ini"), hx(b"[pre:B]\nkk = 9\n[pre]\nb = 6\n")))
-    h.op("load 0 %s" % hx(b"ks4.ini"), ("load", 0, {1: 6, 0: 9}, coll))               # heading first: the entry wins
+    h.op("load 0 %s" % hx(b"ks4.ini"), ("load", 0, {1: 6, 0: 9}))               # heading in front of the entry
+    h.op("file %s %s" % (hx(b"ks7.ini"), hx(b"[pre]\nb = 2\n[PRE:b]\n[ pre:B ]\nkk = 1\n[pre]\n[pre:b]\n")))
+    h.op("load 0 %s" % hx(b"ks7.ini"), ("load", 0, {1: 2, 0: 1}))               # repeated headings, any case
     h.op("file %s %s" % (hx(b"ks5.ini"), hx(b"[pre]\nb = maybe\n[PRE:b]\nkk = 1\n")))
-    h.op("load 0 %s" % hx(b"ks5.ini"), ("load", 0, "error", {"vars": [1], "invalid_all_collide": True}))
+    h.op("load 0 %s" % hx(b"ks5.ini"), ("load", 0, "error"))                    # an invalid value is not hidden by the heading
     h.op("file %s %s" % (hx(b"ks6.ini"), hx(b"[pre:b]\nkk = 1\n[pre]\nb = maybe\n")))
-    h.op("load 0 %s" % hx(b"ks6.ini"), ("load", 0, "error", {"vars": [1], "invalid_all_collide": True}))
+    h.op("load 0 %s" % hx(b"ks6.ini"), ("load", 0, "error"))
     h.end()
-    # F-C17l: no option with a short name: sc_options_parse never writes to the optstring it hands to getopt_long
-    longonly = [("sw", 0, b"flag", None), ("int", 0, b"num", ("i0", 0))]
-    for fill in (0, 43, 45, 58):
+    # F-C17l (repaired bd8c44f): no option with a short name: the optstring handed to getopt_long must be the empty string
+    # whatever an earlier call left on the stack.  `dirty c` fills the stack with the byte c before the next parse; the
+    # reference demands the denoted result after every filler, and `samefill` demands the very same output line as after zeros
+    longonly = [("bool", 0, b"flag", ("i0", 0)), ("int", 0, b"num", ("i0", 0))]
+    for fill in (43, 45, 58, 97, 255):
         h = History(hid, flat(longonly)); hid += 1; out.append(h); h.tags.add("aimed-optstring")
-        h.parse(0, [b"prog", b"input.txt", b"--flag", b"--num", b"5", b"more"])
-        h.op("dirty %d" % fill); h.parse(0, [b"prog", b"input.txt", b"--flag", b"--num", b"6", b"more"])
-        h.op("dirty %d" % fill); h.parse(0, [b"prog", b"--num=7", b"--", b"--flag"])
-        h.parse(0, [b"prog", b"in", b"--flag"]); roundtrip(h, rng, b"os.ini"); h.end()
-        # the same stack content in front of an object WITH short names changes nothing
+        for argv in ([b"prog", b"input.txt", b"--flag", b"--num", b"5", b"more"], [b"prog", b"--num=7", b"--", b"--flag"], [b"prog", b"in", b"--fl=no", b"x", b"--nu", b"-3"]):
+            h.op("seti 0 0"); h.op("seti 1 0"); h.op("dirty 0"); h.parse(0, list(argv))
+            clean = len(h.lines) - 1
+            h.op("seti 0 0"); h.op("seti 1 0"); h.op("dirty %d" % fill); h.parse(0, list(argv))
+            h.checks.append((len(h.lines) - 1, "samefill", clean, fill))
+        roundtrip(h, rng, b"os.ini"); h.end()
+        # the same stack content in front of an object WITH short names changes nothing either
         h = H(); h.tags.add("aimed-optstring")
         h.op("dirty %d" % fill); h.parse(0, [b"prog", b"input.txt", b"-x", b"--int", b"5", b"more", b"-qq"])
         h.op("dirty %d" % fill); h.parse(0, [b"prog", b"input.txt", b"-Z", b"--int", b"5"]); h.end()
@@ -1174,36 +1172,6 @@ def args_of(text):
     return text[i:] if i >= 0 else None
 
 
-def collisions_from_text(h, idx):
-    """replay files written before the generator recorded F-C17k collisions: recompute them from the text of the loaded file"""
-    w = h.lines[idx].split()
-    text = None
-    for l in h.lines[:idx]:
-        if l.startswith("file " + w[2] + " "):
-            text = unhx(l.split()[2])
-    if text is None or w[0] != "load":
-        return {"vars": (), "invalid_all_collide": False}
-    heads = set(m.group(1).strip(SPACE).lower() for m in re.finditer(rb"(?m)^[ \t]*\[([^\]\n]*)\][ \t\r]*$", text))
-    o = int(w[1])
-    vs = set()
-    for it in h.decl.objs.get(o if o < 4 else o - 4, []):
-        if it.ty in FILE_TYPES and it.name is not None and b":" in it.name and it.name.lower() in heads:
-            vs.add(it.var)
-    return {"vars": sorted(vs), "invalid_all_collide": False}
-
-
-def optstring_unwritten(h, idx, dirty=True):
-    """F-C17l: line idx of the history is a parse of an object none of whose options has a short name (sc_options_parse then
-    never writes to its local optstring) and - dirty=True - the operation before it filled the stack with non-zero bytes"""
-    w = h.lines[idx].split()
-    if w[0] != "parse":
-        return False
-    if dirty and (idx < 1 or not h.lines[idx - 1].startswith("dirty ") or h.lines[idx - 1].split()[1] == "0"):
-        return False
-    o = int(w[1])
-    return not any(it.ch for it in h.decl.objs[o if o < 4 else o - 4])
-
-
 def oracle(ctx, h, impl):
     """property oracle on the implementation's output of one history; returns number of judged facts"""
     res = [l for l in impl if not l.startswith("EV") and not l.startswith("H ")]
@@ -1235,6 +1203,11 @@ def oracle(ctx, h, impl):
             judged += 1
             if line != exp:
                 viol("strtol-reference", "libc strtol(%r) gives %s, reference %s" % (chk[2], line, exp))
+        elif kind == "samefill":
+            judged += 1
+            if by_idx.get(chk[2]) != line:
+                viol("parse:depends-on-stack", "sc_options_parse of the same text gives `%s` after a stack of zero bytes and `%s` after a stack of bytes %d"
+                     % (by_idx.get(chk[2], "?")[:120], line[:120], chk[3]))
         elif kind == "parse":
             o, argv = chk[2], chk[3]
             items = decl.objs[o if o < 4 else o - 4]
@@ -1243,9 +1216,6 @@ def oracle(ctx, h, impl):
                 continue
             judged += 1
             sig = "parse:" + ("fail" if eret == -1 else "ok")
-            if optstring_unwritten(h, idx):
-                # F-C17l: no option of the object has a short name and the stack was filled by `dirty`
-                sig = "optstring-uninitialised:" + sig
             if eret != ret:
                 viol(sig + ":return", "sc_options_parse(%s) returned %s, the text denotes %s" % (b" ".join(argv)[:200], ret, eret), dict(argv=[hx(a) for a in argv]))
             elif epost is not None:
@@ -1255,14 +1225,9 @@ def oracle(ctx, h, impl):
                         break
         elif kind == "load":
             exp = chk[3]
-            coll = chk[4] if len(chk) > 4 and chk[4] else collisions_from_text(h, idx)
             judged += 1
             if exp == "error":
-                if ret != -1 and coll["invalid_all_collide"]:
-                    # F-C17k: every invalid entry sits in the dictionary slot of a later section heading and is skipped
-                    viol("key-section-collision:invalid-value-skipped", "sc_options_load returned %s on a file whose invalid value belongs to "
-                         "an entry named like a section of the file" % ret)
-                elif ret != -1:
+                if ret != -1:
                     viol("load:invalid-accepted", "sc_options_load returned %s on a file with an invalid value" % ret)
             elif exp is not None:
                 if ret != 0:
@@ -1270,10 +1235,6 @@ def oracle(ctx, h, impl):
                 else:
                     for v, x in exp.items():
                         same = dbl_close(post[v][1], x[1]) if isinstance(x, tuple) else post.get(v) == x
-                        if not same and v in coll["vars"]:
-                            viol("key-section-collision:value-not-loaded", "sc_options_load: variable %d is %r, the file says %r; the entry is named "
-                                 "like a section of the file (\"[a]\\nb = 1\\n[a:B]\")" % (v, post.get(v), x))
-                            break
                         if not same:
                             viol("load:value", "sc_options_load: variable %d is %r, the file says %r" % (v, post.get(v), x))
                             break
@@ -1307,7 +1268,6 @@ def oracle(ctx, h, impl):
                 for n, a in enumerate(last_args):
                     unsafe = unsafe or ini_unsafe(a, len(str(n)))
             fails = []
-            failed_items = []
             if r2 != 0:
                 fails.append("load of the saved file returned %s" % r2)
             if r3 != 0:
@@ -1325,7 +1285,6 @@ def oracle(ctx, h, impl):
                         same = a == b
                     if not same:
                         fails.append("%s option %s: saved %r, reloaded %r" % (it.ty, (it.name or bytes([it.ch])).decode("latin1"), a, b))
-                        failed_items.append(it)
                 if r4 == 0 and args_of(f1) != args_of(f2):
                     fails.append("argument list differs after the round trip")
                 kvstale = False
@@ -1351,15 +1310,10 @@ def oracle(ctx, h, impl):
                         if t is not None and decl.kvs[it.kv].get(t) != vars1.get(it.var):
                             stale = True
                 tiny = any(it.ty == "dbl" and libc_strtod(libc_fmt16(vars1[it.var][1]))[1] for it in items)
-                # F-C17k: every option that did not come back is saved under a key that is also a section heading of the file
-                headings = set(l[1:-1].lower() for l in f1.split(b"\n") if l.startswith(b"[") and l.endswith(b"]"))
-                collide = bool(failed_items) and all(saved_key(it) in headings for it in failed_items)
                 if unsafe:
                     key = "ini-unsafe-string:" + unsafe
                 elif tiny and r2 != 0:
                     key = "double-subnormal:reload-raises-ERANGE"
-                elif collide:
-                    key = "key-section-collision:option-not-restored"
                 elif stale:
                     key = "keyvalue-stale-copy:saved-text-differs-from-variable"
                 else:
@@ -1480,14 +1434,6 @@ def run(ctx):
         nguard[1] += sum(1 for g in guards.values() if not g)
         if h.hid in crashed:
             continue
-        for k in range(min(len(il), len(ml))):
-            # (dirty=False: should the zero fill of the harness ever miss the buffer, what libc scans is still not determined by the declarations)
-            if il[k] != ml[k] and k < len(h.lines) and optstring_unwritten(h, k, dirty=False) and re.sub(r" GETOPT_MODEL_(EVENTS|FINAL)$", "", ml[k]) == il[k]:
-                # F-C17l: getopt_long was handed an option string the declarations do not determine; the outcome of the parse
-                # itself is modelled from the recorded events and agrees
-                ctx.violation("optstring-uninitialised:getopt-trace", "history %d: getopt_long did not scan `%s` as the declared options say "
-                              "(no option has a short name: optstring is never written)" % (h.hid, h.lines[k][:160]), hist_to_json(h))
-                ml[k] = il[k]
         if len(il) != len(ml) or any(a != b for a, b in zip(il, ml)):
             ndis += 1
             k = next((i for i, (a, b) in enumerate(zip(il, ml)) if a != b), min(len(il), len(ml)))
